@@ -1172,6 +1172,12 @@ int32 matrixDtlsGetOutdata(ssl_t *ssl, unsigned char **buf)
  */
     if (ssl->outlen == 0 && ssl->appDataExch == 0)
     {
+        /* Never rebuild a handshake flight on a failed or closed session */
+        if (ssl->flags & (SSL_FLAGS_ERROR | SSL_FLAGS_CLOSED))
+        {
+            *buf = NULL;
+            return 0;
+        }
 
         /* And now the ugly part.  If we have been receiving records that
            are sent individually and we are successfully midway through an
